@@ -594,6 +594,7 @@ func (db *DB) tableCompaction(c *compaction, noTrivial bool) {
 	sourceSize := stats[0].read + stats[1].read
 	minSeq := db.minSeq()
 	verifNoteMinSeq(db.s, minSeq, c.sourceLevel)
+	defer verifForgetMinSeq(db.s)
 	db.logf("table@compaction L%d·%d -> L%d·%d S·%s Q·%d", c.sourceLevel, len(c.levels[0]), c.sourceLevel+1, len(c.levels[1]), shortenb(sourceSize), minSeq)
 
 	b := &tableCompactionBuilder{
